@@ -1,3 +1,3 @@
 From Coq Require Import ExtrOcamlBasic ZArith NArith.
 From CA Require Import Model.Support Model.Lexer Model.Parser Model.Matcher Model.Evaluator Model.Resolver Model.StaticKnown Model.ResolverS.
-Extraction "../ocaml/gen/resolvers_model.ml" support_types parse_defs parse_full assembleS static_report.
+Extraction "../ocaml/gen/resolvers_model.ml" support_types parse_defs parse_full assembleS static_report known_value_builtin known_asm_builtin.
